@@ -127,17 +127,20 @@ J('B.mem_prim_set.full', PRIM_PROPS, 'B', 'harness/memprim.c', sources=[PRIM], d
   variants=set_variants(range(8), list(range(0, 41)) + list(range(120, 140)) + list(range(248, 268)) + [300, 391]), object_bits=10,
   functions=['mem_prim_set'], bound='enumerated: every dest alignment 0..7, len 0..40, 120..139, 248..267, 300, 391',
   timeout=900, tiers=('thorough',))
-for fn, nm, lmax in ((2, 'mem_prim_set16', 40), (3, 'mem_prim_set32', 40)):
-    J('B.%s' % nm, PRIM_PROPS, 'B', 'harness/memprim.c', sources=[PRIM], defines=['FN=%d' % fn, 'LMAX=%d' % lmax],
-      unwind=8 + 8 + (lmax + 2) * 4 + 8 + 4, cbmc_flags=['--max-field-sensitivity-array-size', '4000'], replay=True, object_bits=10,
-      functions=[nm], bound='enumerated: every element alignment, len 0..%d elements' % lmax, timeout=900)
-for fn, nm, lmax in ((5, 'mem_prim_move8', 36), (6, 'mem_prim_move16', 36), (7, 'mem_prim_move32', 36)):
-    J('B.%s' % nm, PRIM_PROPS, 'B', 'harness/memprim.c', sources=[PRIM], defines=['FN=%d' % fn, 'LMAX=%d' % lmax],
-      replay=True, functions=[nm], timeout=900,
-      variants=[{'label': 'off%+d' % off, 'defines': ['OFF=%d' % off],
-                 'unwind': 8 + 8 + (lmax + abs(off) + 2) * 4 + 8 + 4} for off in (1, 3, 17, 64, -1, -3, -17, -64)],
-      cbmc_flags=['--max-field-sensitivity-array-size', '4000'],
-      bound='enumerated: every element alignment, len 1..%d elements, src-dest in +-{1,3,17,64} elements' % lmax)
+for fn, nm in ((2, 'mem_prim_set16'), (3, 'mem_prim_set32')):
+    for sfx, lmax, tiers, qp in (('.q', 18, ('quick',), ['C06', 'C18']), ('', 40, ('thorough',), None)):
+        J('B.%s%s' % (nm, sfx), PRIM_PROPS, 'B', 'harness/memprim.c', sources=[PRIM], defines=['FN=%d' % fn, 'LMAX=%d' % lmax],
+          unwind=8 + 8 + (lmax + 2) * 4 + 8 + 4, cbmc_flags=['--max-field-sensitivity-array-size', '4000'], replay=True, object_bits=10,
+          functions=[nm], bound='enumerated: every element alignment, len 0..%d elements' % lmax, timeout=900, tiers=tiers, quick_props=qp)
+for fn, nm in ((5, 'mem_prim_move8'), (6, 'mem_prim_move16'), (7, 'mem_prim_move32')):
+    for sfx, lmax, offs, tiers, qp in (('.q', 18, (1, 3, 17, -1, -3, -17), ('quick',), ['C06', 'C07']),
+                                       ('', 36, (1, 3, 17, 64, -1, -3, -17, -64), ('thorough',), None)):
+        J('B.%s%s' % (nm, sfx), PRIM_PROPS, 'B', 'harness/memprim.c', sources=[PRIM], defines=['FN=%d' % fn, 'LMAX=%d' % lmax],
+          replay=True, functions=[nm], timeout=900, tiers=tiers, quick_props=qp,
+          variants=[{'label': 'off%+d' % off, 'defines': ['OFF=%d' % off],
+                     'unwind': 8 + 8 + (lmax + abs(off) + 2) * 4 + 8 + 4} for off in offs],
+          cbmc_flags=['--max-field-sensitivity-array-size', '4000'],
+          bound='enumerated: every element alignment, len 1..%d elements, src-dest in %s elements' % (lmax, list(offs)))
 
 # ---- memory wrappers, loop-free, primitives replaced by their contracts (engine C)
 MEM_COMMON = ['src/mem/safe_mem_constraint.c', 'src/ignore_handler_s.c']
